@@ -177,9 +177,16 @@ def replay_rows(date, n, g, rows):
     import pandas as pd
     from gettsim import compute_taxes_and_transfers
     P, F = gt.env(date)
-    cols = {"p_id": [0, 1], "hh_id": [0, 0]}
+    # the two persons share their g-unit and every unit that g implies; a unit that g does NOT imply (e.g. the
+    # household of two jointly assessed spouses) is split when a column of that level differs between them
+    def split(h):
+        return h not in IMPL[g] and any(gt.suffix_group(a) == h and rows[0][a] != rows[1][a] for a in rows[0])
+    cols = {"p_id": [0, 1], "hh_id": [0, 1] if split("hh") else [0, 0]}
     if g != "hh":
         cols[f"{g}_id"] = [0, 0]
+    for h in G:
+        if h not in ("hh", g) and f"{h}_id" not in cols and split(h):
+            cols[f"{h}_id"] = [0, 1]
     for a in rows[0]:
         cols[a] = [rows[0][a], rows[1][a]]
     df = pd.DataFrame(cols)
